@@ -8,11 +8,40 @@ import numpy as np
 from .. import gen, impl, oracle, progs, ser, stream
 
 ID = "C14"
-LEVEL = "translation_validation"
-PROPS_MODULE = None
-THEOREMS = []
-LEAN_FILES = []
-PLANNED = ["heap model Op.frame", "inplace_eq_outofplace"]
+LEVEL = "proof"
+PROPS_MODULE = "SymmModel.Props.C14"
+THEOREMS = [
+    "SymmModel.C14.op_safe",
+    "SymmModel.C14.op_step",
+    "SymmModel.C14.op_step_out",
+    "SymmModel.C14.op_frame",
+    "SymmModel.C14.op_frame_all",
+    "SymmModel.C14.op_frame_inplace",
+    "SymmModel.C14.result_objects_new",
+    "SymmModel.C14.no_shared_dict",
+    "SymmModel.C14.prog_step",
+    "SymmModel.C14.prog_frame",
+    "SymmModel.C14.prog_frame_later",
+    "SymmModel.C14.call_inv",
+    "SymmModel.C14.calls_inv",
+    "SymmModel.C14.result_mutation_safe",
+    "SymmModel.C14.viaCopy_same",
+    "SymmModel.C14.viaCopyWith_same",
+    "SymmModel.C14.inplace_same_value",
+    "SymmModel.C14.viaCopy_same_other",
+    "SymmModel.C14.inplace_same_value_multiply_diagonal",
+    "SymmModel.C14.share_not_safe",
+    "SymmModel.C14.shared_sign_dict_leaks",
+    "SymmModel.C14.shared_block_dict_leaks",
+    "SymmModel.Heap.safe_inv",
+    "SymmModel.Heap.runAct_spec",
+    "SymmModel.Heap.runAct_refines",
+    "SymmModel.Heap.script_refines",
+    "SymmModel.Heap.script_refines_others",
+    "SymmModel.Heap.copyWithArr_refines"
+]
+LEAN_FILES = ["SymmModel.Model.Heap", "SymmModel.Proofs.HeapLemmas", "SymmModel.Proofs.HeapRefine", "SymmModel.Props.C14", "SymmModel.Driver.HeapH"]
+PLANNED = ["inplace_same_value for __iadd__/__isub__/__imul__/__itruediv__ with a block array and drop_misaligned_sectors(inplace=True)"]
 RULE = ("random programs (length <= 4) over abelian and fermionic arrays incl. decompositions; deep snapshots "
         "(block bytes, dict orders, index tables, charge, pending signs, labels) of every live value before and after "
         "each step; afterwards every result is mutated through all in-place methods and dict writes and the operands "
@@ -292,6 +321,9 @@ def run(ctx):
     n = 3000 if ctx.tier == "quick" else 20000
     stream.run_stream(ctx, "frame", "harness.props.c14", "gen_cases", n, per_chunk=40,
                       canon_kw=dict(drop_zero=True))
+    # heap model: object-identity correspondence (which dict objects a result shares with operands)
+    from . import c14_heap
+    c14_heap.check_sharing(ctx)
 
 
 def replay(ctx, payload):
